@@ -428,4 +428,39 @@ func (*scope).unprotectTemporary [C05]
   ensures forall k int :: 0 <= k && k < len(scope.temporaries) ==> scope.temporaries[k].val == old(scope.temporaries[k].val) && scope.temporaries[k].typ == old(scope.temporaries[k].typ)
   loop 0 invariant -1 <= i && i < len(scope.temporaries)
   loop 0 invariant forall k int :: i < k && k < len(scope.temporaries) ==> scope.temporaries[k].val != val
+
+// a value is released by exactly one call of its descriptor's free function - and only if it is not primitive
+func (*compiler).freeNonPrimitive [C05]
+  requires c != nil && c.cbb != nil
+  modifies g:$ncalls, g:$rterr
+  ensures $ncalls == old($ncalls) + (typ.IsPrimitive() ? 0 : 1)
+  callsite NewCall requires !typ.IsPrimitive() && arg1 == box(typ.FreeFunc()) && len(arg2) == 1 && arg2[0] == val
+
+// scope exit: every recorded temporary that is not protected (or every one, when forced) is released exactly once,
+// in ledger order, with its own descriptor
+func (*compiler).freeTemporaries [C05]
+  requires c != nil && c.cbb != nil && scp != nil
+  modifies g:$ncalls, g:$rterr
+  ensures $ncalls == old($ncalls) +
+            count(k, 0, len(scp.temporaries), (!scp.temporaries[k].protected || force) && !scp.temporaries[k].typ.IsPrimitive())
+  callsite freeNonPrimitive requires 0 <= rangeindex0 && rangeindex0 < len(scp.temporaries) &&
+            arg1 == scp.temporaries[rangeindex0].val && arg2 == scp.temporaries[rangeindex0].typ &&
+            (!scp.temporaries[rangeindex0].protected || force)
+  loop 0 invariant rangeindex0 < len(scp.temporaries)
+  loop 0 invariant $ncalls == old($ncalls) +
+            count(k, 0, rangeindex0 + 1, (!scp.temporaries[k].protected || force) && !scp.temporaries[k].typ.IsPrimitive())
+
+// claim-or-copy: a temporary is claimed (removed from the ledger, so that exactly one owner remains), anything else
+// is deep-copied; primitives are stored
+func (*compiler).claimOrCopy#2 [C05]
+  requires c != nil && c.cbb != nil && c.scp != nil
+  callsite claimTemporary requires isTemp && !valTyp.IsPrimitive() && arg1 == val
+  callsite deepCopyInto requires !isTemp && !valTyp.IsPrimitive() && arg1 == dest && arg2 == val && arg3 == valTyp
+
+// leaving a scope releases each of its own variables that is neither a reference nor protected, then its temporaries
+func (*compiler).exitScope [C05]
+  requires c != nil && c.cbb != nil && scp != nil
+  callsite freeNonPrimitive requires !v.isRef && !v.protected && arg1 == v.val && arg2 == v.typ
+  callsite freeTemporaries requires arg1 == scp && !arg2
+  ensures result == old(scp.enclosing)
 @*/
